@@ -34,7 +34,9 @@ var guardTable = []guardSpec{
 	{"cap-size/commit", "every commit-phase cap has 2^CapHeight entries", token.EQL, rx(`<<\(1,.*\.CapHeight\)`), rx(`len\(.*\.CommitPhaseMerkleCaps\[i\]\)`), nil, 1, ".OpeningProof.CommitPhaseMerkleCaps[]", nil},
 	{"evalproofs=oracles|caps", "every query round opens exactly one leaf per oracle and per initial cap (count 4), checked both by the shape validation and by the initial-tree verification", token.EQL, rx(`len\(` + qrp + `\.InitialTreesProof\.EvalsProofs\)`), rx(`4|len\(local.*\)`), nil, 2, ".OpeningProof.QueryRoundProofs[]", nil},
 	{"leaf=numpolys", "every opened initial leaf has as many elements as its oracle has polynomials", token.EQL, rx(`len\(` + qrp + `\.InitialTreesProof\.EvalsProofs\[i\]\.Elements\)`), rx(`.*`), []string{".NumWires", ".QuotientDegreeFactor", ".NumPartialProducts"}, 1, ".OpeningProof.QueryRoundProofs[].InitialTreesProof.EvalsProofs[]", nil},
-	{"initpath+cap=lde", "initial Merkle path length + CapHeight = LDE bits", token.EQL, rx(`\+\(len\(` + qrp + `\.InitialTreesProof\.EvalsProofs\[i\]\.MerkleProof\.Siblings\),.*\.CapHeight\)`), rx(`\+\(.*\.DegreeBits,.*\.RateBits\)`), nil, 1, ".OpeningProof.QueryRoundProofs[].InitialTreesProof.EvalsProofs[]", nil},
+	{"initpath+cap=lde", "initial Merkle path length + CapHeight = LDE bits", token.EQL, rx(`\+\(len\(` + qrp + `\.InitialTreesProof\.EvalsProofs\[i\]\.MerkleProof\.Siblings\),.*\.CapHeight\)`), rx(`\+\(.*\.DegreeBits,.*\.RateBits\)`), nil, 1, ".OpeningProof.QueryRoundProofs[].InitialTreesProof.EvalsProofs[]",
+		// the same refusal with CapHeight moved to the other side: len(path) = LDE bits − CapHeight
+		&guardAlt{token.EQL, rx(`^len\(` + qrp + `\.InitialTreesProof\.EvalsProofs\[i\]\.MerkleProof\.Siblings\)$`), rx(`^-\(\+\(.*\.DegreeBits,.*\.RateBits\),.*\.CapHeight\)$`)}},
 	{"steps=arities", "every query round has one step per reduction arity", token.EQL, rx(`len\(` + qrp + `\.Steps\)`), rx(`len\(.*\.ReductionArityBits\)`), nil, 1, ".OpeningProof.QueryRoundProofs[]", nil},
 	{"evals=arity", "every step has 2^arityBits evaluations (checked by the shape validation and again by the interpolation)", token.EQL, rx(`len\(` + qrp + `\.Steps\[i\]\.Evals\)`), rx(`<<\(1,.*\.ReductionArityBits\[i\]\)`), nil, 2, ".OpeningProof.QueryRoundProofs[].Steps[]", nil},
 	{"steppath+cap=codeword", "step Merkle path length + CapHeight = remaining codeword bits", token.EQL, rx(`\+\(len\(` + qrp + `\.Steps\[i\]\.MerkleProof\.Siblings\),.*\.CapHeight\)`), rx(`.*`), []string{".DegreeBits", ".RateBits", ".ReductionArityBits[*]"}, 1, ".OpeningProof.QueryRoundProofs[].Steps[]", nil},
